@@ -453,6 +453,19 @@ impl Gen {
         match kind {
             K_NEW => self.new_op(w, plan, rng, task, None),
             K_CLONE => match self.pick_inst(w, rng, task, plan.share, |_| true) {
+                Some(src) if rng.chance(1, 4) => {
+                    // clone_from into another live instance of the same family and role, if there is one
+                    let (sf, sr) = (w.insts[&src].fam, w.insts[&src].role);
+                    let cands: Vec<u32> = w.insts.values().filter(|i| i.id != src && i.fam == sf && i.role == sr).map(|i| i.id).collect();
+                    if cands.is_empty() {
+                        let id = self.next_id;
+                        self.next_id += 1;
+                        self.owned.push((task, id));
+                        Op::Clone { id, task, src }
+                    } else {
+                        Op::CloneFrom { id: *rng.pick(&cands), task, src }
+                    }
+                }
                 Some(src) => {
                     let id = self.next_id;
                     self.next_id += 1;
